@@ -458,7 +458,10 @@ def parseLine(raw, eols=(CRLF, LF, CR ), kind="event line"):
                 eol = sep
 
         if index < 0:  # not found
-            if len(raw) > MAX_LINE_SIZE:
+            size = len(raw)
+            if CRLF in eols and raw.endswith(CR):  # maybe CRLF split by read boundary
+                size -= 1  # CR of eol is not line so limit same as when found
+            if size > MAX_LINE_SIZE:
                 raise LineTooLong(kind)
             else:
                 (yield None)  # more data needed not done parsing header
@@ -494,7 +497,10 @@ def parseLeader(raw, eols=(CRLF, LF), kind="leader header line", headers=None):
                 eol = sep
 
         if index < 0:  # not found
-            if len(raw) > MAX_LINE_SIZE:
+            size = len(raw)
+            if CRLF in eols and raw.endswith(CR):  # maybe CRLF split by read boundary
+                size -= 1  # CR of eol is not line so limit same as when found
+            if size > MAX_LINE_SIZE:
                 raise LineTooLong(kind)
             else:
                 (yield None)  # more data needed not done parsing header
